@@ -2,7 +2,7 @@
 (structural clauses A..I of DESIGN.md section 3)."""
 import re
 
-from .facts import walk, kids, strip_all, strip, call_args, call_object, is_call, CALL_KINDS
+from .facts import walk, kids, strip_all, strip, call_args, call_object, is_call, CALL_KINDS, in_macro
 from .structure import Struct, always_exits
 from .throwmodel import ThrowModel, _unq, INT_TYPES
 from .extract import AnalysisBroken
@@ -246,7 +246,7 @@ def run(F, R, tier, M=None):
             if hit is None:
                 continue
             base = re.sub(r"<[^()]*>(?=::operator\(\)$)", "", f["name"])
-            if n.get("m") in ("ERROR", "WARNING", "VERBOSE"):
+            if any(in_macro(n, mm) for mm in ("ERROR", "WARNING", "VERBOSE")):
                 R.fail("D", "%s macro %s" % (f["name"], n["m"]), F.loc(f, n), "log macro writes to stdout",
                        key="D|macro|%s" % n["m"])
             elif f["file"] != "src/gm2calc.cpp":
@@ -259,7 +259,7 @@ def run(F, R, tier, M=None):
     nmac = 0
     for k, f in F.functions.items():
         for n in walk(f["body"]):
-            if n.get("k") == "DeclRefExpr" and n.get("m") in ("ERROR", "WARNING", "VERBOSE") and \
+            if n.get("k") == "DeclRefExpr" and any(in_macro(n, mm) for mm in ("ERROR", "WARNING", "VERBOSE")) and \
                     n.get("rk") == "Global" and n.get("n", "").startswith("std::c") and not n.get("ma"):
                 nmac += 1
                 if n["n"] != "std::cerr":
@@ -316,11 +316,11 @@ def run(F, R, tier, M=None):
 
 # ---------------------------------------------------------------------------
 def _is_diag(n):
-    if n.get("m") in ("ERROR",) and n.get("k") == "DoStmt":
+    if in_macro(n, "ERROR") and n.get("k") == "DoStmt":
         return True
     if is_call(n) and (n.get("fn") or "").endswith("print_error"):
         return True
-    if n.get("k") == "DeclRefExpr" and n.get("n") == "std::cerr" and n.get("m") not in ("VERBOSE",):
+    if n.get("k") == "DeclRefExpr" and n.get("n") == "std::cerr" and not in_macro(n, "VERBOSE"):
         return True
     return False
 
